@@ -5,7 +5,8 @@ def sig(rec, clauses):
     s = {"kind": rec.get("k"), "via": rec.get("ad", ""), "type": rec.get("ty", ""), "b": rec.get("b", 0), "system": rec.get("sys", "")}
     if "forms" in rec:
         tol = rec.get("tol_md", 0)
-        bad = [f["name"] for f in rec["forms"] if f.get("exc") or f["reported_md"] > tol or f["true_md"] > tol + 1000 or f["diff_md"] > -6000]
+        bad = [f["name"] for f in rec["forms"] if f.get("exc") or f["reported_md"] > tol or f["true_md"] > tol + 1000 or f["diff_md"] > -6000
+               or f["reported_md"] > max(f["true_md"], -13000) + 1000]
         s["formulations"] = ";".join(bad)
     return s
 
